@@ -123,7 +123,7 @@ class FnTaint:
                     continue
                 c = body.canon_rv(st['rv'], 0, False)
                 key = ('var', nm, l['l'])
-                if self.tainted_in(c, state) and scalar_like(body.local_ty(l['l'])):
+                if (self.tainted_in(c, state) or self.ostat_tainted(l['l'], state)) and scalar_like(body.local_ty(l['l'])):
                     state.add(key)
                 else:
                     state.discard(key)
@@ -162,6 +162,76 @@ class FnTaint:
         self.in_state = IN
         return IN
 
+    def order_stat(self, l):
+        """('max' | 'min', x, y) if named local l is one component of `let (a, b) = if x <= y { (x, y) } else { (y, x) };`
+        (any of < <= > >=, either arrangement): l is then max(x, y) resp. min(x, y), so an upper bound on a 'max' bounds
+        both x and y.  Recognised on the MIR: l = _t.i once; _t = tuple in the two successors of one switch on the
+        comparison of the same two operands; None for any other shape."""
+        cache = self.__dict__.setdefault('_ostat', {})
+        if l in cache:
+            return cache[l]
+        cache[l] = None
+        body = self.body
+        defs = [(b, st) for b in range(body.n) for st in body.blocks[b]['stmts']
+                if st['k'] == 'assign' and st['lhs']['l'] == l and not st['lhs']['p']]
+        if len(defs) != 1 or defs[0][1]['rv'].get('k') != 'use':
+            return None
+        pl = core.op_place(defs[0][1]['rv']['op'])
+        if not pl or len(pl['p']) != 1 or 'f' not in pl['p'][0]:
+            return None
+        t, idx = pl['l'], pl['p'][0].get('i')
+        tdefs = [(b, st) for b in range(body.n) for st in body.blocks[b]['stmts']
+                 if st['k'] == 'assign' and st['lhs']['l'] == t and not st['lhs']['p']]
+        if len(tdefs) != 2 or any(st['rv'].get('k') != 'agg' or st['rv'].get('agg') != 'tuple' for _, st in tdefs):
+            return None
+        (b1, s1), (b2, s2) = tdefs
+        p1, p2 = body.preds(b1), body.preds(b2)
+        if len(p1) != 1 or len(p2) != 1 or p1[0] != p2[0] or b1 == b2:
+            return None
+        sw = body.term(p1[0])
+        if sw['k'] != 'switch' or len(sw['targets']) != 1 or sw['targets'][0][0] != 0:
+            return None
+        c = self.canon(sw['discr'])
+        if not (c[0] == 'bin' and c[1] in ('Lt', 'Le', 'Gt', 'Ge')):
+            return None
+        x, y = c[2], c[3]
+        f_blk, t_blk = sw['targets'][0][1], sw['otherwise']
+        vals = {}
+        for bb, st in tdefs:
+            cv = body.canon_rv(st['rv'], 0, False)
+            if not (cv[0] == 'tuple' and idx is not None and idx < len(cv[1])):
+                return None
+            vals[bb] = cv[1][idx]
+        if set(vals) != {f_blk, t_blk}:
+            return None
+        vt, vf = vals[t_blk], vals[f_blk]
+        if {repr(vt), repr(vf)} != {repr(x), repr(y)} or x == y:
+            return None
+        small_first = c[1] in ('Lt', 'Le')
+        is_min = ((vt == x) == small_first)
+        cache[l] = ('min' if is_min else 'max', x, y)
+        return cache[l]
+
+    def ostat_tainted(self, l, state):
+        """a min / max of tainted operands is tainted (the value travels through an unnamed tuple)"""
+        os_ = self.order_stat(l)
+        return bool(os_ and (self.tainted_in(os_[1], state) or self.tainted_in(os_[2], state)))
+
+    def bounded_with(self, names, state):
+        """names whose upper bound follows from an upper bound on `names`: the operands of a max"""
+        more = set()
+        for n_ in names:
+            if n_[0] == 'var' and len(n_) > 2:
+                os_ = self.order_stat(n_[2])
+                if os_ and os_[0] == 'max':
+                    more |= self.tainted_in(os_[1], state) | self.tainted_in(os_[2], state)
+                    for m_ in state:        # ... and the min of the same pair
+                        if m_[0] == 'var' and len(m_) > 2:
+                            om = self.order_stat(m_[2])
+                            if om and {repr(om[1]), repr(om[2])} == {repr(os_[1]), repr(os_[2])}:
+                                more.add(m_)
+        return more
+
     def is_validator_call(self, t):
         cal = t['callee']
         if not cal.get('local'):
@@ -185,9 +255,9 @@ class FnTaint:
             ta, tb = self.tainted_in(a, state), self.tainted_in(bb, state)
             if c[1] in ('Lt', 'Le'):
                 if ta and not tb and t_edge in outs:
-                    outs[t_edge] -= ta
+                    outs[t_edge] -= ta | self.bounded_with(ta, state)
                 if tb and not ta and f_edge in outs:
-                    outs[f_edge] -= tb
+                    outs[f_edge] -= tb | self.bounded_with(tb, state)
             else:
                 for e in (f_edge, t_edge):
                     if e in outs:
@@ -254,7 +324,7 @@ class FnTaint:
                     if nm is not None and not (1 <= st['lhs']['l'] <= body.arg_count):
                         c = body.canon_rv(st['rv'], 0, False)
                         key = ('var', nm, st['lhs']['l'])
-                        if self.tainted_in(c, state) and scalar_like(body.local_ty(st['lhs']['l'])):
+                        if (self.tainted_in(c, state) or self.ostat_tainted(st['lhs']['l'], state)) and scalar_like(body.local_ty(st['lhs']['l'])):
                             state.add(key)
                         else:
                             state.discard(key)
@@ -306,7 +376,7 @@ class FnTaint:
                     if nm is not None and not (1 <= st['lhs']['l'] <= body.arg_count):
                         c = body.canon_rv(st['rv'], 0, False)
                         key = ('var', nm, st['lhs']['l'])
-                        if self.tainted_in(c, st2):
+                        if self.tainted_in(c, st2) or self.ostat_tainted(st['lhs']['l'], st2):
                             st2.add(key)
                         else:
                             st2.discard(key)
